@@ -328,6 +328,11 @@ class C12(Prop):
 STD_ACCEPTED_SHAPES = [
     # two used field types that differ only in a lifetime (the recorded C12 finding, known_findings.json)
     ('Clone, Debug, PartialEq', "pub struct X<'a, 'b, T>(pub &'a T, pub &'b T);"),
+    # a reference field BEFORE the last field of the same parameter: the where-clause has `&'a T: Debug`, and the last field
+    # (passed by double reference) must not be matched against it (regression of fix 5f7c0f6, found by the thorough C20 tier)
+    ('Clone, Debug, PartialEq, Hash', "pub struct X<'a, T> { pub a: &'a T, pub b: T }"),
+    ('Debug, PartialEq, PartialOrd', "pub struct X<'a, T: ?Sized>(pub &'a T, pub u8, #[allow(dead_code)] pub T);"),
+    ('Debug, Default', "pub struct X<'a, T>(pub Option<&'a T>, pub Vec<T>);"),
     # ... and the same with one lifetime (no ambiguity)
     ('Clone, Debug, PartialEq', "pub struct X<'a, T>(pub &'a T, pub &'a T);"),
     # an unsized last field that its tokens do not give away
